@@ -433,6 +433,21 @@ func (e *containerExec) judge(s *CStep, rd container.Reader, rerr error, ex expe
 		o.Violate("C17", "corrupt-container-accepted", fmt.Sprintf("%s (%s) succeeded with %d tokens although %s", s.Format, variant, len(keys), ex.why), attrs)
 		return
 	}
+	// C08 clause on container keys: a token that carries ledger content must be filed
+	// under the harness's own hash of bytes that were delivered
+	o.Eval("C08")
+	if ex.haveWant {
+		wantSet := map[string]bool{}
+		for _, k := range ex.want {
+			wantSet[k] = true
+		}
+		for _, k := range keys {
+			if !wantSet[k] && e.allSignedContent(map[string]string{k: got[k]}) {
+				o.Violate("C08", "container-key-not-cid", fmt.Sprintf("%s (%s) files a token under %s, which is not the CIDv1/dag-cbor/sha2-256 of any entry of the container", s.Format, variant, k[:16]), attrs)
+				break
+			}
+		}
+	}
 	if ex.haveWant && strings.Join(keys, ",") != strings.Join(ex.want, ",") {
 		o.Violate("C17", "wrong-set", fmt.Sprintf("%s (%s) returned %d tokens, the container holds %d distinct entries (partial or mislabelled set)", s.Format, variant, len(keys), len(ex.want)), attrs)
 		return
